@@ -153,7 +153,18 @@ def apply_fault(f, root, q, apath, rows, ids):
                 fh.write(b"this is not a database" * 50)
         elif kind == "bad_task_name":
             conn = sqlite3.connect(ip)
-            conn.execute("INSERT INTO version_index VALUES ('not an identifier', 7, NULL, 0)")
+            nested = [k for k in keys if not k[0].startswith("//:")]
+            if nested and f["pick"] < 0.7:
+                # a row whose string is outside the identifier grammar but LOOKS canonical and designates the directory of
+                # an archived version: //p/q:n  ->  //p:q/n  (the name contains a slash)
+                k = pick(nested, f["pick"] / 0.7)
+                path, name = k[0][2:].rsplit(":", 1)
+                head, _sep, last = path.rpartition("/")
+                bad = "//%s:%s/%s" % (head, last, name)
+                conn.execute("UPDATE version_index SET task_identifier = ? WHERE task_identifier = ? AND timestamp = ?", (bad, k[0], k[1]))
+                note = (bad, k[1])
+            else:
+                conn.execute("INSERT INTO version_index VALUES (?, 7, NULL, 0)", (["not an identifier", "//a b:c", "//p:na me", "//p:n\n", "//:\u00e9"][int(f["pick"] * 1000) % 5],))
             conn.commit()
             conn.close()
         elif kind == "empty_index":
